@@ -2,6 +2,7 @@ package file
 
 import (
 	"context"
+	"fmt"
 	"io"
 
 	dagpb "github.com/ipld/go-codec-dagpb"
@@ -33,6 +34,11 @@ func (d *deferredFileNode) resolve() error {
 	}
 	target, err := d.lsys.Load(ipld.LinkContext{Ctx: d.ctx}, d.root, protoFor(d.root))
 	if err != nil {
+		if err == io.EOF {
+			// the readers above take a bare io.EOF for the regular end of this
+			// child and would silently carry on with the next one
+			err = fmt.Errorf("loading %s: %w", d.root, err)
+		}
 		return err
 	}
 
